@@ -20,7 +20,7 @@ var c08Templates = [][]string{
 	{"{namespace a}\n/** @param x\n @param? l\n @param? u */\n{template .t}\nbefore{if $l}L{/if}{let $y: $x /}{$y}{call .w data=\"all\"}{param z: 1 /}{/call}{$u}after\n{/template}\n/** @param x\n @param z */\n{template .w}\n{$x}{$z}\n{/template}\n"},
 	// 3: rendered through a translating catalogue: two messages with the same text and placeholder
 	// names (hence the same id) whose placeholders stand for different content
-	{"{namespace a}\n/** @param x */\n{template .t}\n{msg desc=\"d\"}Go <a href=\"/beta\">{$x|noAutoescape}</a>!{/msg}{msg desc=\"e\"}untranslated {$x}{/msg}\n{/template}\n" +
+	{"{namespace a}\n/** @param x */\n{template .t}\n{msg desc=\"d\"}Go <a href=\"/beta\">{$x|noAutoescape}</a>!{/msg}{msg desc=\"e\"}untranslated {$x}{/msg}{msg desc=\"pl\"}{plural 2}{case 1}one <i>{$x}</i>{default}many <b>{$x}</b> x{/plural}{/msg}\n{/template}\n" +
 		"/** @param x */\n{template .other}\n{msg desc=\"d\"}Go <a href=\"/alpha\">{$x}</a>!{/msg}\n{/template}\n"},
 	// 4: a template that calls itself 12 levels deep with data="all" plus a param; calls with data
 	// taken from an empty map, a map holding the param's key, and a map expression, plus params
@@ -31,24 +31,46 @@ var c08Templates = [][]string{
 }
 
 // c08Catalogue translates every message whose text is "Go <a>X</a>!".
-type c08Catalogue struct{ ids map[uint64]bool }
+type c08Catalogue struct {
+	ids    map[uint64]bool
+	plural map[uint64]string // plural variable name of the messages that are plurals
+}
 
 func (b c08Catalogue) Locale() string { return "xx" }
 func (b c08Catalogue) Message(id uint64) *soymsg.Message {
 	if !b.ids[id] {
 		return nil
 	}
+	if b.plural[id] != "" {
+		return &soymsg.Message{ID: id, Parts: []soymsg.Part{soymsg.PluralPart{VarName: b.plural[id], Cases: []soymsg.PluralCase{
+			{Spec: soymsg.PluralSpec{Type: soymsg.PluralSpecOne}, Parts: []soymsg.Part{soymsg.RawTextPart{Text: "un "}, soymsg.PlaceholderPart{Name: "X"}}},
+			{Spec: soymsg.PluralSpec{Type: soymsg.PluralSpecOther}, Parts: []soymsg.Part{soymsg.RawTextPart{Text: "des "}, soymsg.PlaceholderPart{Name: "START_BOLD"}, soymsg.PlaceholderPart{Name: "X"}, soymsg.PlaceholderPart{Name: "END_BOLD"}}},
+		}}}}
+	}
 	return &soymsg.Message{ID: id, Parts: []soymsg.Part{soymsg.RawTextPart{Text: "Va "}, soymsg.PlaceholderPart{Name: "START_LINK"},
 		soymsg.PlaceholderPart{Name: "X"}, soymsg.PlaceholderPart{Name: "END_LINK"}, soymsg.RawTextPart{Text: " !"}}}
 }
-func (b c08Catalogue) PluralCase(n int) int { return 0 }
+func (b c08Catalogue) PluralCase(n int) int {
+	if n == 1 {
+		return 0
+	}
+	return 1
+}
 
 func c08MakeCatalogue(t *Tofu) soymsg.Bundle {
-	b := c08Catalogue{map[uint64]bool{}}
+	b := c08Catalogue{map[uint64]bool{}, map[uint64]string{}}
 	var walk func(n ast.Node)
 	walk = func(n ast.Node) {
 		if m, ok := n.(*ast.MsgNode); ok && m.Desc == "d" {
 			b.ids[m.ID] = true
+		}
+		if m, ok := n.(*ast.MsgNode); ok && m.Desc == "pl" {
+			b.ids[m.ID] = true
+			for _, c := range m.Body.Children() {
+				if pl, ok := c.(*ast.MsgPluralNode); ok {
+					b.plural[m.ID] = pl.VarName
+				}
+			}
 		}
 		if p, ok := n.(ast.ParentNode); ok {
 			for _, c := range p.Children() {
